@@ -501,8 +501,20 @@ def _label_span(prog: Program, res: Result) -> None:
     # extract_bands
     f, ups = site("sigpyproc.base", "Filterbank.extract_bands", "prep_outfile")
     for c, d in ups:
-        a, b, why = ab(f, d, c, stop=("i", "batch_start", "chanstart", "chanpersub"))
-        want = sym("chanstart") + (sym("batch_start") + sym("i")) * sym("chanpersub")
+        # position of this file inside its batch: the comprehension's enumerate index minus its start value
+        comp = parent(c)
+        while comp is not None and not isinstance(comp, (ast.ListComp, ast.GeneratorExp)):
+            comp = parent(comp)
+        ivar, start_p = "i", Poly.const(0)
+        if comp is not None and comp.generators:
+            g0 = comp.generators[0]
+            if isinstance(g0.iter, ast.Call) and dotted(g0.iter.func) == "enumerate" and isinstance(g0.target, ast.Tuple) and isinstance(g0.target.elts[0], ast.Name):
+                ivar = g0.target.elts[0].id
+                st_ = g0.iter.args[1] if len(g0.iter.args) > 1 else next((k_.value for k_ in g0.iter.keywords if k_.arg == "start"), None)
+                if st_ is not None:
+                    start_p = PolyEnv().poly(st_)
+        a, b, why = ab(f, d, c, stop=(ivar, "batch_start", "chanstart", "chanpersub"))
+        want = sym("chanstart") + (sym("batch_start") + sym(ivar) - start_p) * sym("chanpersub")
         report(f, c, "extract_bands", a, b, why, want, Poly.const(1), "band selection (file i of a batch starts at channel chanstart+(batch_start+i)*chanpersub)")
     # single-channel selections
     f, ups = site("sigpyproc.base", "Filterbank.read_chan", "new_header")
